@@ -225,3 +225,49 @@ theorem validateArgs_error (hG : Gen.cyclicGuard = true) :
           simp [errKind, Arg.isPtrLike, hp, h]
 
 end Occa.Dtype
+
+namespace Occa.Dtype
+open Occa
+
+/-- number of entries an array extent contributes: unknown (or negative) extents count once (F13b) -/
+def extent (sz : Option Int) : Nat :=
+  match sz with
+  | none => 1
+  | some k => if k < 0 then 1 else k.toNat
+
+def extProd : List (Option Int) → Nat
+  | [] => 1
+  | a :: r => extent a * extProd r
+
+theorem repeatList_add {α : Type} (xs : List α) : ∀ m n, repeatList (m + n) xs = repeatList m xs ++ repeatList n xs
+  | 0, n => by simp [repeatList]
+  | m + 1, n => by
+      have : m + 1 + n = (m + n) + 1 := by omega
+      rw [this]
+      simp [repeatList, repeatList_add xs m n]
+
+theorem repeatList_mul {α : Type} (xs : List α) (b : Nat) : ∀ a, repeatList a (repeatList b xs) = repeatList (a * b) xs
+  | 0 => by simp [repeatList]
+  | a + 1 => by
+      have e : (a + 1) * b = b + a * b := by rw [Nat.add_mul]; omega
+      rw [e, repeatList_add xs b (a * b), ← repeatList_mul xs b a]
+      rfl
+
+theorem flatten_tuple_extent (hU : Gen.unknownExtentFlattensOne = true) (d : Dtype) (sz : Option Int) :
+    (Dtype.tuple "" d (sz.getD (-1))).flatten = repeatList (extent sz) d.flatten := by
+  cases sz with
+  | none => simp [Dtype.flatten, hU, extent]
+  | some k =>
+    by_cases hk : k < 0
+    · simp [Dtype.flatten, hU, extent, hk]
+    · simp [Dtype.flatten, extent, hk]
+
+theorem flatten_foldl_tuple (hU : Gen.unknownExtentFlattensOne = true) :
+    ∀ (arrays : List (Option Int)) (d : Dtype),
+      (arrays.foldl (fun d sz => Dtype.tuple "" d (sz.getD (-1))) d).flatten = repeatList (extProd arrays) d.flatten
+  | [], d => by simp [extProd, repeatList]
+  | a :: r, d => by
+      simp only [List.foldl_cons, extProd]
+      rw [flatten_foldl_tuple hU r, flatten_tuple_extent hU, repeatList_mul, Nat.mul_comm]
+
+end Occa.Dtype
